@@ -137,10 +137,10 @@ func c03Spec(cell c03Cell, o c03Outcome) string {
 			return "a value expired longer than MaxStaleness must not be re-stored for other readers"
 		}
 		if cell.failCache == "hit" {
-			if o.build == "none" && (stale || o.errTag == "CachedFailure") {
+			if o.build == "none" && (stale && !cell.failHard || o.errTag == "CachedFailure") {
 				return ""
 			}
-			return "cached failure: no build; either the stale value or the cached error"
+			return "cached failure: no build; the cached error, or (not under FailHard) the stale value"
 		}
 		if o.build != "sync" {
 			return "too-stale entry must block on a synchronous build"
@@ -157,10 +157,10 @@ func c03Spec(cell c03Cell, o c03Outcome) string {
 			return "failed refresh must return the backend's write error without building"
 		}
 		if cell.failCache == "hit" {
-			if o.build == "none" && (stale || o.errTag == "CachedFailure") {
+			if o.build == "none" && (stale && !cell.failHard || o.errTag == "CachedFailure") {
 				return ""
 			}
-			return "cached failure: no build; either the stale value or the cached error"
+			return "cached failure: no build; the cached error, or (not under FailHard) the stale value"
 		}
 		if !cell.syncUpdate {
 			if o.build == "background" && stale {
